@@ -92,6 +92,15 @@ func foreignHello(r *rand.Rand, echKind string, key *gen.KeyMat, tls13 bool, big
 	}
 	r.Shuffle(len(exts), func(i, j int) { exts[i], exts[j] = exts[j], exts[i] })
 	h.Exts = exts
+	if !tls13 && echKind == "none" {
+		switch r.IntN(6) {
+		case 0:
+			h.Exts = nil // extensions field present, length 0
+		case 1:
+			h.Exts = nil
+			h.NoExtField = true // pre-TLS-1.3 hello without an extensions field
+		}
+	}
 	return h
 }
 
